@@ -332,10 +332,10 @@ PROPS["C17"] = dict(
 
 PROPS["C18"] = dict(
     claim=dict(
-        text="PARTIAL. Machine-checked proof (Coq 8.16) of the glue of binding.Auto: methods other than POST/PUT/PATCH bind from the query string whatever the Content-Type (C18_source_query); for each documented media type (url-encoded form, multipart form, JSON, application/xml, text/xml), with no parameters or any parameters free of '/', the transcribed substring dispatch selects the documented source (C18_source_documented, via a lemma that a marker beginning with '/' cannot match inside or across such parameters); a Content-Type containing none of the four markers is an error (C18_source_unknown); a successful bind implies the decoded struct passed validation whenever the validator is enabled (C18_validated); ASSUMING the codec law decode(encode x) = x, encoding a valid value and binding it back yields it (C18_roundtrip); a codec error is an error of the bind (C18_error). K5 (substring tests: application/jsonx binds as JSON) is a refuted witness and a known finding. Tie to the code: method x Content-Type table with a different value in every source; round trips of generated struct values through JSON, XML, form, multipart and query; malformed bodies (error, never panic); validation on/off x valid/invalid.",
+        text="PARTIAL. Machine-checked proof (Coq 8.16) of the glue of binding.Auto: methods other than POST/PUT/PATCH bind from the query string whatever the Content-Type (C18_source_query); for each documented media type (url-encoded form, multipart form, JSON, application/xml, text/xml), with no parameters or ANY parameters, the transcribed dispatch (subtype test on the media type = the text before the first ';', trimmed) selects the documented source (C18_source_documented); parameters never influence the choice (C18_source_params_irrelevant); a Content-Type whose media type has none of the four subtypes is an error (C18_source_unknown); a successful bind implies the decoded struct passed validation whenever the validator is enabled (C18_validated); ASSUMING the codec law decode(encode x) = x, encoding a valid value and binding it back yields it (C18_roundtrip); a codec error is an error of the bind (C18_error). F20 (former K5; substring tests on the whole header value: application/jsonx and 'text/plain; a=/json' bound as JSON) was repaired in /repo (31720bd) and is kept as a refuted witness of the legacy dispatch (C18_legacy_F20_refuted). Tie to the code: method x Content-Type table with a different value in every source; round trips of generated struct values through JSON, XML, form, multipart and query; malformed bodies (error, never panic); validation on/off x valid/invalid.",
         note="PARTIAL: encoding/json, encoding/xml, formam, gookit/validate and net/http form parsing are third-party / standard-library code: Coq states their laws as hypotheses (section variables) and the harness only samples them. Trusted: Coq kernel, extraction, driver, harness.",
         technique="Coq proof of the source-selection table and the decode-then-validate glue (codecs as hypotheses) + sampled round-trip / malformed-input exploration"),
-    theorems=["C18_source_query", "C18_source_documented", "C18_source_unknown", "C18_validated", "C18_roundtrip", "C18_error"],
+    theorems=["C18_source_query", "C18_source_documented", "C18_source_params_irrelevant", "C18_source_unknown", "C18_validated", "C18_roundtrip", "C18_error", "C18_legacy_F20_refuted"],
     n=dict(quick=5000, thorough=60000),
     consts=[],
     rule="cases: (a) method x Content-Type from a table of 20 (documented types with and without parameters, empty, unknown, near-miss types), every source carrying a "
